@@ -130,6 +130,23 @@ CLAIMS = {
             "no longer verifies is skipped rather than compared. Per-cycle structure; cross-cycle "
             "baseline is the recorded finding D7 (C03).",
             "DESIGN.md §4 C14"),
+    "C12": ("structural analysis of the type graph of the signed portion: type-checked ADT/impl facts "
+            "(rustc) joined with #[serde]/#[derive] attributes (syn), plus MIR value-origin rules for the "
+            "hand-written Serialize impls, extra_skip_type and the canonical message of the verifiers",
+            "Decides, for every type reachable from the signed portion of the four roles, that what is "
+            "verified (canonical re-serialisation of the parsed object) contains exactly what was parsed: "
+            "no asymmetric serde attribute, omission only for Option::is_none, a flattened catch-all at "
+            "every level, role tag from the Rust type with the input's `_type` stripped, hand-written "
+            "impls emit the original text. Missing catch-alls in Delegations/DelegatedRole (D11) and "
+            "Target.custom omitted when empty (D15) are recorded findings.",
+            "DESIGN.md §4 C12"),
+    "C13": ("serde attribute query over all key-table fields + MIR dominance/value-origin analysis of "
+            "de::deserialize_keys, validate_and_insert_entry, Key::key_id, Decoded's Eq/Hash, tuftool add_key",
+            "Decides for every path that a key enters a key table only after `keyid == key.key_id()` "
+            "(whole-value equality on decoded bytes) and a no-duplicate insertion, for every input entry, "
+            "for both root and delegation tables; that key_id is SHA-256 over the canonical "
+            "serialisation of the key itself. SHA-256 / value-level round trips are not decided.",
+            "DESIGN.md §4 C13"),
 }
 
 NOT_YET = {}
